@@ -865,6 +865,42 @@ fn check_observed(c: &InputCase, st: Option<&mut Stats>) -> Verdict {
         let again = guard(|| image_in_mode(&p, &src, with_options)).unwrap_or_default();
         vensure!(again == plain, "c18.depends-on-history", "the result after parses observed by a tracing subscriber differs from the one before\n before {}\n after  {}\n input {src:?}", truncate(&plain, 1200), truncate(&again, 1200));
     }
+    // what is done with the result afterwards (scaling, conversion, fractions, grouping) has no listener input either
+    let downstream = |p: &CooklangParser| -> String {
+        let Some(r) = p.parse(&src).into_output() else { return String::new() };
+        let mut img = format!("{:?}", r.metadata.time(p.converter()));
+        let mut s = r.scale(1.5, p.converter());
+        let _ = s.convert(cooklang::convert::System::Imperial, p.converter());
+        img.push_str(&serde_json::to_string(&s).unwrap_or_default());
+        for g in s.group_ingredients(p.converter()) {
+            // the order of the unknown-unit entries of a grouped quantity is hash order (not a parse result): sorted
+            let mut parts: Vec<String> = g.quantity.iter().map(|q| q.to_string()).collect();
+            parts.sort();
+            img.push_str(&format!("{}|", parts.join(", ")));
+        }
+        let Some(r) = p.parse(&src).into_output() else { return img };
+        let mut m = r.scale(1.0, p.converter());
+        let _ = m.convert(cooklang::convert::System::Metric, p.converter());
+        img.push_str(&serde_json::to_string(&m).unwrap_or_default());
+        img
+    };
+    if let Ok(plain) = guard(|| downstream(&p)) {
+        for level in [tracing::Level::TRACE, tracing::Level::DEBUG] {
+            let rec = std::sync::Arc::new(Recorder { max: level, next: Default::default(), seen: Default::default() });
+            let d = tracing::Dispatch::from(RecorderHandle(rec.clone()));
+            let img = match guard(|| tracing::dispatcher::with_default(&d, || downstream(&p))) {
+                Ok(i) => i,
+                Err(e) => vbail!("c18.panic.observed", "scaling / converting panicked while a {level} tracing subscriber was listening (it does not without): {e}\n input {src:?}"),
+            };
+            saw += rec.seen.load(std::sync::atomic::Ordering::Relaxed);
+            vensure!(
+                img == plain,
+                "c18.depends-on-observer",
+                "scaling, converting and grouping give another result while a tracing subscriber (max level {level}) is listening\n {}\n input {src:?}",
+                first_diff(&plain, &img)
+            );
+        }
+    }
     if let Some(st) = st {
         st.eval();
         st.class_if(saw > 0, "the subscriber received spans or events");
@@ -889,7 +925,7 @@ fn observers_part(run: &mut Run, n: usize) {
         }
     }
     st.sample(|| b[0].describe());
-    run.add_part("observers", "every input of a batch (plus documents with many parser errors) parsed plain, then while a thread-scoped tracing subscriber is listening at max level TRACE, DEBUG, INFO, WARN, ERROR (it formats every field it is given), then plain again - through parse / parse_metadata and the *_with_options entry points: all images must be equal (a subscriber is not an input of the parse); non-trivial = the subscriber received something", st, false);
+    run.add_part("observers", "every input of a batch (plus documents with many parser errors) parsed plain, then while a thread-scoped tracing subscriber is listening at max level TRACE, DEBUG, INFO, WARN, ERROR (it formats every field it is given), then plain again - through parse / parse_metadata and the *_with_options entry points, and the result is scaled, converted to both systems and grouped with and without a listener: all images must be equal (a subscriber is not an input of the parse); non-trivial = the subscriber received something", st, false);
     if let Some((v, case)) = fail {
         run.fail("observers", v, case);
     }
